@@ -61,6 +61,7 @@ class Query:
     no_unwinding_assertions: bool = False
     backend: list = field(default_factory=list)    # e.g. ["--external-sat-solver","kissat"]
     stretch: bool = False                          # undecided (timeout/oom) is reported, not fatal
+    fp_restrict: bool = False                      # type-exact function-pointer targets (vlib/fprestrict.py)
 
 
 @dataclass
@@ -139,6 +140,16 @@ def goto_cc(q, out, extra_defs=()):
     rc, so, se, w, _ = run(cmd, 300)
     if rc != 0:
         raise RuntimeError("goto-cc failed for %s: %s" % (q.name, (se or so)[-2000:]))
+    if q.fp_restrict:
+        from vlib import fprestrict
+        pre = ["gcc", "-E", "-w"] + cmd[1:-2 - len(srcs(q))] + srcs(q)
+        rc, so, se, w, _ = run(pre, 120, limit=False)
+        if rc != 0:
+            raise RuntimeError("preprocessing failed for %s: %s" % (q.name, se[-1000:]))
+        tmp = out + ".fp"
+        newbin, res = fprestrict.apply(out, tmp, so)
+        if newbin != out:
+            os.replace(tmp, out)
 
 
 def native_build(q, out, extra_defs=()):
